@@ -792,3 +792,38 @@ from . import c08 as _c08
 PROP.obligation('C01.reload-zero', canaries=[
     mut.replace_expr('wallets', 'WalletTransaction.from_txid', 'inp.sequence is not None', 'inp.sequence', 'a stored sequence of 0 reloads as the default: other hashSequence'),
 ])(_c08.reload_zero)
+
+
+_SPEND_KW = ('keys', 'script_type', 'sigs_required', 'value', 'witness_type', 'address')
+_SPEND_KW_NEW = ('compressed', 'sort')
+
+
+@PROP.obligation('C01.wallet-input-complete', canaries=[
+    mut.drop_kwarg('wallets', 'WalletTransaction.add_input_from_wallet', 'add_input', 'value', 'inputs added from the wallet carry no amount'),
+    mut.drop_kwarg('wallets', 'Wallet.select_inputs', 'Input', 'compressed', 'selected inputs assume compressed keys'),
+    mut.drop_kwarg('wallets', 'Wallet.transaction_create', 'add_input', 'sigs_required', 'inputs of a created transaction use the default threshold', nth=1),
+])
+def wallet_input_complete(ctx):
+    """Sibling agreement between the five places of wallets.py that turn a wallet key into a transaction input (select_inputs, the two
+    add_input calls of transaction_create, add_input_from_wallet, from_txid). What the digest and the scripts of an input depend on is
+    handed over by EVERY one of them: keys, script_type, sigs_required (the redeem script), value (the amount BIP143 commits to),
+    witness_type (which preimage), address; the four that build a NEW spend also pass compressed and sort (key form and BIP67 order in
+    the redeem script). The table is the set all five (four) pass on the reference tree; a site that drops one falls back on a default
+    of Input.__init__ that is right only for single-key compressed native inputs."""
+    mod = ctx.repo.mod('wallets')
+    n = 0
+    for name, fn in sorted(mod.functions.items()):
+        q = 'wallets:' + name
+        for c in walk_no_nested(fn):
+            if not (isinstance(c, ast.Call) and (norm(c.func) == 'Input' or (isinstance(c.func, ast.Attribute) and c.func.attr == 'add_input'))):
+                continue
+            have = set(k.arg for k in c.keywords)
+            if 'keys' not in have:
+                continue
+            n += 1
+            need = set(_SPEND_KW) | (set(_SPEND_KW_NEW) if name != 'WalletTransaction.from_txid' else set())
+            missing = sorted(need - have)
+            ctx.saw('%s: %s(...) passes %s' % (name, norm(c.func), sorted(have & (set(_SPEND_KW) | set(_SPEND_KW_NEW)))))
+            ctx.require(not missing, q, '`%s(...)` hands over wallet keys without %s, which every sibling site passes' % (norm(c.func), ', '.join(m_ + '=' for m_ in missing)), c,
+                        'the input is built with the default of Input.__init__ for that argument (value 0, sigs_required 1 / all keys, compressed keys, unsorted keys): its digest or its redeem script is not the one of the output it spends')
+    ctx.floor(n, 5, 'Input constructions with wallet keys')
